@@ -432,3 +432,56 @@ Theorem validated_documents_need_disjoint_histories_refuted :
   breaks kho_tree [true; true; true; true; true; true; false] [[101%N]].
 Proof. exact hist_disjoint_needed_refuted. Qed.
 Print Assumptions validated_documents_need_disjoint_histories_refuted.
+
+(* ===================== work package `tt`: legality of every run from a document-level predicate ===================== *)
+From V Require Import Fast LegalHistRun LegalHistWf LegalHistFastRun FlattenWf ValidateBridge ValidateBridgeRun.
+From V Require Import FlattenStaticTree FlattenStaticHist FlattenStaticMain FlattenStaticWitness.
+
+(* WHAT: C02 for documents with <initial> elements, deep / multiple initial attributes and histories, from a
+   predicate on the DOCUMENT alone: for every tree of hist_treeb (FlattenStaticTree.v: root <scxml> with a child;
+   schema nesting with <history>/<initial> below <state> only; unique numbers; non-empty, existing, legal target and
+   initial-attribute sets, the latter of descendants; <initial>/<history> with exactly one transition without
+   cond/event to proper states below the parent (proper children for a shallow history); no state below the parent
+   of a deep history owns a history), both bindings, both variants of the executable-content model, every list of
+   external events and every number of steps, the configuration of BOTH engine models is legal.
+   Differs from run_always_legal_validated_document: no validator verdict, no numbering condition vb_hidden_freshb.
+   Each clause is needed (hist_tree_clauses_needed in Properties_C03.v; C02-K1 is the witness for the last).
+   NOT COVERED: the generated C; documents outside hist_treeb (histories below <parallel>, overlapping histories). *)
+Theorem document_run_always_legal_history : forall t, hist_treeb t = true ->
+  forall late xv fuel evs,
+    let c := flatten late t in
+    CfgOK c (fst (run_loop c lstate (large_step lg_fixed xv c) l_cfg fuel l_pristine x_init evs)) /\
+    CfgOK c (fst (run_loop c lstate (fast_step xv c) l_cfg fuel l_pristine x_init evs)).
+Proof. exact document_run_legal_history_lemma. Qed.
+Print Assumptions document_run_always_legal_history.
+
+(* ... the invariant form: legal configuration of proper states and a usable history record, along runs and for one
+   step() from any such state *)
+Theorem document_run_always_legal_history_strong : forall t, hist_treeb t = true ->
+  forall late xv fuel evs,
+    let c := flatten late t in
+    CfgOKH c (fst (run_loop c lstate (large_step lg_fixed xv c) l_cfg fuel l_pristine x_init evs)) /\
+    CfgOKH c (fst (run_loop c lstate (fast_step xv c) l_cfg fuel l_pristine x_init evs)).
+Proof. exact document_run_legal_history_strong_lemma. Qed.
+Print Assumptions document_run_always_legal_history_strong.
+
+Theorem document_microstep_preserves_legal_history : forall t, hist_treeb t = true ->
+  forall late xv, let c := flatten late t in
+    (forall l x, CfgOKH c l -> CfgOKH c (fst (fst (large_step lg_fixed xv c l x)))) /\
+    (forall l x, CfgOKH c l -> CfgOKH c (fst (fst (fast_step xv c l x)))).
+Proof. exact document_step_legal_history_lemma. Qed.
+Print Assumptions document_microstep_preserves_legal_history.
+
+(* the tables of such a document are inside the reach of run_always_legal_history / _fast *)
+Theorem history_documents_are_covered : forall late t, hist_treeb t = true ->
+  wf_histb (flatten late t) = true /\ fs_type (st (flatten late t) 0) = FCompound.
+Proof. exact flatten_wf_hist_lemma. Qed.
+Print Assumptions history_documents_are_covered.
+
+(* without the last clause the statement is false: C02-K1 passes every other clause of hist_treeb and both engine
+   models reach an illegal configuration on e *)
+Theorem document_run_always_legal_history_needs_disjoint_histories_refuted :
+  ht_clauses kho_tree = [true; true; true; true; true; true; true; false] /\ tables_bad kho_tree = true /\
+  run_illegal kho_tree [[101%N]] = true.
+Proof. exact disjoint_clause_needed_refuted. Qed.
+Print Assumptions document_run_always_legal_history_needs_disjoint_histories_refuted.
